@@ -9,6 +9,7 @@ CONSTANTS
   ServerRun = TRUE
   CasLoserErrors = FALSE
   ExitCheckAfterHandler = TRUE
+  HooksConcurrent = TRUE
   CountAtAccept = TRUE
 SYMMETRY Sym
 SPECIFICATION Spec
